@@ -15,6 +15,7 @@ mod dsbuild;
 mod framework;
 mod nethelp;
 mod pdugen;
+mod simdisk;
 mod simio;
 mod simnet;
 
